@@ -4,9 +4,10 @@ CONSTANTS
   MaxProd = 2  MaxTables = 1  MaxDepth = 2
   OpenKinds = {"Device"}  DeclKindsOn = {"OpRegion"}
   Forms = {}
+  FieldKinds = {"Field", "IndexField", "BankField"}
   ScopeOn = FALSE  FieldOn = TRUE  MethodFlags = {}  StmtKinds = {}  MaxStmts = 0
   Widths = {}
-  Excluded = {"D1", "D1b", "D2", "D2c", "D3", "D5", "D7", "D8", "D9"}
+  Excluded = {"D1", "D1b", "D2", "D2c", "D3", "D5", "D7", "D8", "D9", "D10", "D11"}
   Emit = FALSE  Bug = "UnitsNotAccumulated"
 INIT Init
 NEXT Next
